@@ -8,6 +8,7 @@ package neutrino
 // message is an explorer choice.
 
 import (
+	"runtime"
 	"bytes"
 	"fmt"
 	"os"
@@ -392,6 +393,32 @@ func c05Run(c *verifeng.Chooser, f *c05fix, env *verifhfs.Env, mode string, dept
 						servedOK[want] = true
 						o.done = true
 						return deliver(p, f.data[want].Block)
+					}})
+				}
+				if os.Getenv("VFX_LENIENT") != "" && sentCount["ok+readers"] < 1 {
+					// race-detector pass only (C18): the intact block
+					// arrives while other consumers ask for the same block
+					// and look at it (as a rescan and a GetUtxo scan do),
+					// with no quiescent point in between
+					menu = append(menu, ev{p.name + fmt.Sprintf(" sends block(T%d, intact) while three more consumers ask for T%d and read what they get", want, want), func() bool {
+						sentCount["ok+readers"]++
+						servedOK[want] = true
+						o.done = true
+						hash := f.chain[want].Hash
+						blk := f.data[want].Block
+						go func() { p.msgs <- blk }()
+						for _, yields := range []int{0, 20, 200} {
+							yields := yields
+							go func() {
+								for i := 0; i < yields; i++ {
+									runtime.Gosched()
+								}
+								if b, err := cs.GetBlock(hash, opts...); err == nil && b != nil {
+									_ = b.Height()
+								}
+							}()
+						}
+						return true
 					}})
 				}
 				add("other", fmt.Sprintf("block(T%d, a different valid block)", want%c05Len+1), f.data[want%c05Len+1].Block, false, 0, false)
